@@ -123,6 +123,10 @@ def gen_history(rng, cid, nops, wrap=False):
         else:
             maxb = rng.choice([25, 40, 41, 64, 100, 1500])
             batch = G.gen_batch(rng, maxb, rng.range(0, 5), huge_ok=False)
+            # packets without payload bytes are legal inputs of encode(): they open frames (and consume counters) without adding a message
+            for p in batch:
+                if rng.chance(1, 6):
+                    p['payload'] = b''; p['pt'] = 0xFE; p['kind'] = None
             minb = G.pick_min(rng, maxb, batch) if batch else 0
             idx = []
             for p in batch:
